@@ -197,7 +197,7 @@ func generate(rnd *rand.Rand, thorough bool) []*Prog {
 		// decisive addresses plus the growth templates.
 		if sc.pages == 1 || (thorough && sc.pages == 2) {
 			l := int64(L)
-			for _, mode := range []string{"shared", "imported", "imported-shared"} {
+			for _, mode := range []string{"shared", "imported", "imported-shared", "imported-mismatch"} {
 				mkm := func(tmpl string, p uint32, body ...Stmt) {
 					out = append(out, &Prog{Tmpl: tmpl + "/" + mode, Pages: sc.pages, Max: mx, Alloc: true, Move: !strings.Contains(mode, "shared"), P: p, Mem: mode, Body: body})
 				}
